@@ -29,7 +29,7 @@ CLAIMED = {
         design="4/C14"),
     "C10": dict(
         technique="MIR stored-value flow: origin of the (vamm, trader) pair in every position store/remove key and in every tmp-swap store, per execute->reply chain step; field-assignment census; query entry signatures; unsafe census with fixture",
-        note="Decided: R10.1 position writes key on (msg.vamm, info.sender) in execute arms / (tmp_swap.vamm, tmp_swap.trader) in replies / msg.trader for Liquidate; R10.2 tmp-swap.trader origin (the named address itself through addr_validate/Addr::unchecked only, not a value computed from it); R10.3 Position.vamm/trader assigned only from the requested key; R10.4 queries take read-only Deps, no unsafe (positive-control fixture); R10.5 DepositMargin proves position.trader == info.sender. Not decided: key aliasing through the separator-free sha3(vamm||trader) for address strings a real chain's addr_validate would reject; re-entrancy via a malicious vAMM.",
+        note="Decided: R10.1 position writes key on (msg.vamm, info.sender) in execute arms / (tmp_swap.vamm, tmp_swap.trader) in replies / msg.trader for Liquidate; R10.2 tmp-swap.trader origin (the named address itself through addr_validate/Addr::unchecked only, not a value computed from it); R10.3 Position.vamm/trader assigned only from the requested key; R10.4 queries take read-only Deps, no unsafe (positive-control fixture); R10.5 DepositMargin proves position.trader == info.sender; R10.6 the position key hash frames its variable-length inputs (length prefix / separator) at every write, remove and read, so distinct (vamm, trader) pairs cannot alias (found F15, fixed). Not decided: re-entrancy via a malicious vAMM.",
         design="4/C10"),
     "C03": dict(
         technique="MIR message census over all product code (+fixture) and receiver/payer origin analysis of every transfer constructible on each chain step",
@@ -65,7 +65,7 @@ CLAIMED = {
         design="4/C05"),
     "C06": dict(
         technique="MIR guard facts and expression-tree pattern matching: liquidation guard and ratio selection, spot/TWAP selection sibling agreement, spread-limit tree, fee and partial-amount trees, receiver classes",
-        note="Decided: R06.1 selected ratio <= maintenance on every Liquidate success path; R06.2 oracle ratio selected iff over-spread and (oracle - base) > 0, else the base ratio of (msg.vamm, msg.trader); R06.3 TWAP figures iff |spot pnl| > |twap pnl| in MarginRatio and FreeCollateral; R06.4 |((quote*D/base - oracle)*D)/oracle| >= D/10; R06.5 liquidator fee (output*fee/D)/2, only liquidator and insurance fund receive, the insurance fund exactly remain_margin - fee, position removed; R06.6 partial swap amount size*ratio/D, equal penalty halves. Not decided: numeric outcome; overshoot of a partial liquidation (C02 sign table).",
+        note="Decided: R06.1 selected ratio <= maintenance on every Liquidate success path; R06.2 oracle ratio selected iff over-spread and (oracle - base) > 0, else the base ratio of (msg.vamm, msg.trader); R06.3 TWAP figures iff |spot pnl| > |twap pnl| in MarginRatio and FreeCollateral; R06.4 |((quote*D/base - oracle)*D)/oracle| >= D/10; R06.5 liquidator fee (output*fee/D)/2, only liquidator and insurance fund receive, the insurance fund exactly remain_margin - fee, position removed; R06.6 partial swap amount size*ratio/D, equal penalty halves; R06.7 both margin-ratio functions return ((remain_margin.margin - remain_margin.bad_debt)*D)/notional with remain_margin charged with the pnl of the same figures (funding included). Not decided: numeric outcome; overshoot of a partial liquidation (C02 sign table).",
         design="4/C06"),
     "C13": dict(
         technique="MIR sibling-arm agreement on every branch over the collateral kind: transfer constructors compared by (receiver, amount), native required-funds increments compared as a multiset with the amounts the cw20 arm pulls from the trader on the path with the same other conditions",
@@ -81,7 +81,7 @@ CLAIMED = {
         design="4/C01"),
     "C02": dict(
         technique="finite-domain sign-table interpretation over the execute->vAMM->reply chain graph: side/direction helper tables, vAMM direction plumbing and event-attribute mapping extracted from MIR and composed for every assignment of acting side x position kind",
-        note="Decided: R02.1 on every swap edge and assignment the engine's size change has the sign of the vAMM's net-position change and its operand is the base amount of that swap kind (known finding F8: partial liquidation through SwapInput); R02.2 positions are removed/zeroed only after a SwapOutput of size.value in the position's own direction, every swap reply path stores or removes the position; R02.3 attribute keys / type values parsed by the engine are those the vAMM emits, with requested vs priced amounts on the right keys; R02.4 the reduce-vs-reverse decision compares the position's current spot notional with the requested notional, and the partial-liquidation ratio that scales the liquidated size is validated <= decimals at every writer. Not decided: assumes the stored invariant size>0 <=> direction==AddToAmm; failed transactions are covered by C08.",
+        note="Decided: R02.1 on every swap edge and assignment the engine's size change has the sign of the vAMM's net-position change and its operand is the base amount of that swap kind (found F8: partial liquidation through SwapInput, fixed); R02.2 positions are removed/zeroed only after a SwapOutput of size.value in the position's own direction, every swap reply path stores or removes the position; R02.3 attribute keys / type values parsed by the engine are those the vAMM emits, with requested vs priced amounts on the right keys; R02.4 the reduce-vs-reverse decision compares the position's current spot notional with the requested notional, and the partial-liquidation ratio that scales the liquidated size is validated <= decimals at every writer. Not decided: assumes the stored invariant size>0 <=> direction==AddToAmm; failed transactions are covered by C08.",
         design="4/C02"),
     "C07": dict(
         technique="MIR cross-contract type agreement of every query edge (resolved generic arguments), chain-wide absence of gating facts, contradiction rule between the selection comparison and the partial reply's arithmetic, event-order rule for balance-sized top-ups, return-vs-queued agreement, non-zero-amount facts inherited down the call chain for every token-moving message of the liquidation replies",
